@@ -181,6 +181,7 @@ class PM:
             return
         from .evaluator import Evaluator
         from .symeval import Ctx, val_key
+        from .interp import Frame
         ev = None
         ph_keys = {}
         for name, ph in getattr(lp, "placeholders", {}).items():
@@ -210,6 +211,27 @@ class PM:
                 # the same value at every step (constant temperature, constant permeances ...): what `[c] * n` is
                 self.value.fields[fld] = ListV("rep", elem=e, n=lp.n)
                 continue
+            carrier = getattr(src, "carrier", None)
+            if carrier is not None and isinstance(carrier["elem_k"], ObjV) and isinstance(carrier["init"][0], ObjV) \
+                    and isinstance(carrier["per_iter"][0], ObjV):
+                # records completed in place: the state fields of step k are those of the record the list carried into the step
+                hit = None
+                fr0 = Frame(None, carrier["elem_k"].cls.module, {})
+                for f in carrier["elem_k"].cls.fields:
+                    try:
+                        if poly.key_str(val_key(ev.obj_attr(carrier["elem_k"], f.name, fr0, None))) == ek:
+                            hit = f.name
+                            break
+                    except Exception:
+                        continue
+                if hit is not None:
+                    sr = ListV("series", name="%s.%s" % (src.name, hit), init=[ev.obj_attr(carrier["init"][0], hit, fr0, None)],
+                               appended=[ev.obj_attr(carrier["per_iter"][0], hit, fr0, None)], k=lp.k, lo=lp.lo, n=lp.n, popped=1, closed=True,
+                               elem_k=ev.obj_attr(carrier["elem_k"], hit, fr0, None), func=self.func)
+                    sr.per_iter = list(sr.appended)
+                    sr.synthetic = True
+                    self.value.fields[fld] = sr
+                    continue
             name = ph_keys.get(ek)
             if name is not None and name in lp.carried_after:
                 sr = ListV("series", name=name, init=[lp.carried_before[name]], appended=[lp.carried_after[name]], k=lp.k, lo=lp.lo,
